@@ -2,6 +2,7 @@ package main
 
 import (
 	"go/token"
+	"go/types"
 
 	"golang.org/x/tools/go/ssa"
 )
@@ -83,12 +84,21 @@ func checkMessageIndexAdd(p *Program, r *Result, rule string) {
 	} else {
 		r.violated(rule, fname, "entry count advances by one", p.pos(fn.Pos()), "a path through Add does not advance the number of entries: the next message overwrites this entry")
 	}
-	// growth keeps the old entries
-	for _, in := range instrsOf(fn) {
+	// growth keeps the old entries (in Add or in a helper method it calls on the same index)
+	var growthSites []ssa.Instruction
+	for _, rf := range regionOf(p, fn, 2) {
+		if rf != fn && (len(rf.Params) == 0 || !types.Identical(rf.Params[0].Type(), recv.Type())) {
+			continue
+		}
+		growthSites = append(growthSites, instrsOf(rf)...)
+	}
+	for _, in := range growthSites {
 		st, ok := in.(*ssa.Store)
 		if !ok {
 			continue
 		}
+		fn := st.Parent()
+		recv := fn.Params[0]
 		fa, ok := st.Addr.(*ssa.FieldAddr)
 		if !ok || fa.X != ssa.Value(recv) {
 			continue
